@@ -339,6 +339,11 @@ class FluxParams(object):
             self.gap3 = r.randrange(8, 40) if spt <= 10 else r.randrange(6, 14)
             self.sync = r.randrange(4, 9)
             self.gap2 = 11
+            # a controller looks for the data mark within 30 bytes (FM) / 43 bytes (MFM) of the ID field: any gap 2
+            # that keeps the mark inside that window is legal; FM goes up to the window exactly
+            self.wide_gap2 = r.random() < 0.3
+            if self.wide_gap2:
+                self.gap2 = (30 - self.sync) if r.random() < 0.6 else r.randrange(12, 30 - self.sync + 1)
             if self.tight:
                 self.gap3 = r.choice([6, 8, 10])
         else:
@@ -346,6 +351,10 @@ class FluxParams(object):
             self.gap3 = r.randrange(16, 80) if spt <= 16 else r.randrange(12, 50)
             self.sync = r.randrange(10, 15)
             self.gap2 = 22
+            self.wide_gap2 = r.random() < 0.3
+            if self.wide_gap2:
+                # mark byte within 43 bytes: gap 2 + sync + three A1 bytes; one byte of margin is kept
+                self.gap2 = r.randrange(23, 39 - self.sync + 1)
             if self.tight:
                 self.gap3 = r.choice([10, 12, 16])
         self.index_mark = r.random() < 0.5
